@@ -19,6 +19,7 @@ pub mod tzref;
 pub mod zones;
 
 mod c01;
+mod c02;
 mod c03;
 mod c04;
 mod c14;
@@ -63,6 +64,7 @@ fn main() {
 fn prop_fn(name: &str) -> Option<fn(&mut rep::Ctx)> {
     Some(match name {
         "c01" => c01::run,
+        "c02" => c02::run,
         "c03" => c03::run,
         "c04" => c04::run,
         "c14" => c14::run,
